@@ -144,7 +144,10 @@ def error_class(x):
 
 def label_class(label):
     if label.startswith("char:"):
-        return "char:" + label.split(":")[1]         # which unicode file the character came from
+        parts = label.split(":", 3)
+        if len(parts) == 4 and parts[2] == "alone":
+            return f"char:{parts[1]}:alone:U+{ord(parts[3][0]):04X}"         # the character itself: one entry of the table each
+        return "char:" + parts[1]         # which unicode file the character came from
     return canon_run.label_class(label)
 
 
@@ -224,11 +227,16 @@ def main(tier):
     nchars = 0
     for lang in langs:
         chars = [(f"char:{fn}:{c}", char_term(c)) for fn, c in table_chars(lang)] + [(f"char:none:{c}", char_term(c)) for c in NO_TABLE]
-        nchars += len(chars)
+        # the character as the whole expression: an entry that says nothing (at some verbosity) is silent here and merely shorter in context
+        lone = [(f"char:{fn}:alone:{c}", terms.T("mo" if not c.isalnum() else "mi", text=c)) for fn, c in table_chars(lang) if len(c) == 1 and not c.isspace()]
+        nchars += len(chars) + len(lone)
         for style in lattice.styles(lang):
             for verb in (["Medium"] if tier == "quick" else lattice.VERBOSITIES):
                 for i in range(0, len(chars), 800):
                     jobs.append((lang, style, verb, [], chars[i:i + 800]))
+            for verb in (["Terse"] if tier == "quick" else lattice.VERBOSITIES):       # Terse: entries whose wording depends on the verbosity
+                for i in range(0, len(lone), 800):
+                    jobs.append((lang, style, verb, [], lone[i:i + 800]))
         # preference sets on a reduced corpus (capitals, Greek, chemistry live in the trigger terms)
         small = [c for c in corp if c[0].startswith("special:") or "[" not in c[0]]
         caps = [("caps:" + str(i), t) for i, t in enumerate([
@@ -261,7 +269,7 @@ def main(tier):
     return run.finish(
         rule="all spine terms of G to depth 2 and the trigger terms in all 45 language x style x verbosity configurations; single deviations "
              "(degenerate / invisible-operator children, insertions, deletions) of every depth-1 term (thorough: also of the trigger terms) in every language "
-             "and style (quick: Terse and Verbose; thorough: all); one token context for every key of each language's unicode.yaml and unicode-full.yaml "
+             "and style (quick: Terse and Verbose; thorough: all); one token context for every key of each language's unicode.yaml and unicode-full.yaml, and every single-character key as the whole expression (quick: at Terse) "
              "(read with yaml-rust) and for characters in no table; the MathML inputs of the repository's own tests that contain no private-use characters (English: every style and verbosity; other languages: Medium; thorough: all); seven preference sets (capital letters, overrides, impairment, and the engine-only preferences Bookmark / Pitch / Rate / Volume / PauseFactor / MathRate / beep) on a reduced corpus. "
              "Per case: speech, overview and four navigation reads. distinct_nontrivial = distinct (configuration, speech) pairs",
         assumptions=["input alphabets contain no private-use characters, so documented pass-through of unknown characters cannot trip the check",
